@@ -1086,3 +1086,9 @@ add("C11", "findings-lookup-falls-back-when-path-missing", "codemodder/result.py
     [("        return self.get(rule_id, {}).get(file.relative_to(context.directory), [])\n\n    def files_for_rule(",
       "        rel = file.relative_to(context.directory)\n        by_file = self.get(rule_id, {})\n        if rel not in by_file and not (context.directory / rel.name).exists():\n            return by_file.get(Path(rel.name), [])\n        return by_file.get(rel, [])\n\n    def files_for_rule(")],
     "fire", "R-LOOKUP-NO-FS", "results_for_rule_and_file")
+add("C12", "sarif-results-with-suppressions-skipped", SG,
+    [("            for result in sarif_run[\"results\"]:\n", "            for result in sarif_run[\"results\"]:\n                if result.get(\"suppressions\"):\n                    continue\n")],
+    "fire", "R-RESULTS-ALL-ADDED", "SemgrepResultSet.from_sarif")
+add("C06", "codeql-only-error-level-results", "codemodder/codeql.py",
+    [("                    result_set.add_result(codeql_result)", "                    if sarif_result.get(\"level\", \"error\") == \"error\":\n                        result_set.add_result(codeql_result)")],
+    "fire", "R-RESULTS-ALL-ADDED", "CodeQLResultSet.from_sarif")
